@@ -30,10 +30,11 @@ const (
 	badDenied          // written by an identity the destination's access controller refuses
 	badDeniedPayload   // genuine entry of a permitted writer whose payload the destination's controller refuses (a policy on the entry itself)
 	badRelabelled      // key and identity replaced by another writer's; the identity object is bound to a provider of another type that resolves every key to the real signer's
+	badKeySwapped      // the key field replaced by another (permitted) writer's; identity and signature kept: an access decision on the key would credit the wrong writer
 	badKinds
 )
 
-var badNames = []string{"no-key", "no-signature", "signature-of-another-entry", "payload-changed", "foreign-log-id(tampered)", "foreign-log-id(genuine)", "denied-writer", "denied-payload", "relabelled-with-foreign-provider"}
+var badNames = []string{"no-key", "no-signature", "signature-of-another-entry", "payload-changed", "foreign-log-id(tampered)", "foreign-log-id(genuine)", "denied-writer", "denied-payload", "relabelled-with-foreign-provider", "key-of-another-writer"}
 
 func orderedMapOf(es []iface.IPFSLogEntry) iface.IPFSLogOrderedEntries {
 	m := entry.NewOrderedMap()
@@ -176,6 +177,8 @@ func H_C06() {
 			x.SetPayload([]byte("forged"))
 		case badForeignTampered:
 			x.SetLogID("other")
+		case badKeySwapped:
+			x.SetKey(ids[(bad+1)%2].PublicKey)
 		case badRelabelled:
 			signer, other := ids[bad%2], ids[(bad+1)%2]
 			pk, err := signer.Provider.UnmarshalPublicKey(signer.PublicKey)
